@@ -621,7 +621,7 @@ private theorem aligned_deleteLabel (a a' : BinArchive) (x i : Nat)
     · cases h
   · injection h with h; subst h; exact hi
 
-private theorem shiftAt_mod (a n x : Nat) (ha : a % 4 = 0) (hn : n % 4 = 0) (hx : x % 4 = 0) :
+private theorem shiftAt_mod (a n x : Nat) (_ha : a % 4 = 0) (hn : n % 4 = 0) (hx : x % 4 = 0) :
     shiftAt a n x % 4 = 0 := by unfold shiftAt; split <;> omega
 private theorem shiftAfter_mod (a n : Nat) (ge : Bool) (x : Nat) (hn : n % 4 = 0) (hx : x % 4 = 0) :
     shiftAfter a n ge x % 4 = 0 := by unfold shiftAfter; split <;> omega
